@@ -40,7 +40,8 @@ def model_value(m, v):
     if z3.is_false(x):
         return False
     if z3.is_string_value(x):
-        return x.as_string()
+        from .strings import decode_z3_string
+        return decode_z3_string(x.as_string())
     return str(x)
 
 
@@ -120,6 +121,59 @@ class SymCtx:
         self.inputs[name] = v
         self.input_kinds[name] = 'bool'
         return SymBool(v)
+
+    def string(self, name: str, regex=None, max_len: int = 12):
+        """a symbolic string of length <= max_len, optionally constrained to a regular language (z3 regex built by the harness)"""
+        from .strings import SymStr
+        v = z3.String(name)
+        self.inputs[name] = v
+        self.input_kinds[name] = 'str'
+        self.eng.add_axiom(z3.Length(v) <= max_len)
+        if regex is not None:
+            self.eng.add_axiom(z3.InRe(v, regex))
+        return SymStr(v, max_len)
+
+    def structured_string(self, name: str, spec):
+        """a symbolic string built from parts; spec items: ('ws', k) whitespace{0,k} | ('spaces', k) | ('ci', name) one part per character, any letter case |
+        ('lc', n) n lower-case letters/digits/punctuation (no blanks, no upper case) | ('num', n) the code's number pattern, <= n chars"""
+        from . import strings as S
+        parts = []
+        total = 0
+        for j, item in enumerate(spec):
+            kind = item[0]
+            if kind in ('ws', 'spaces'):
+                v = z3.String(f'{name}.{j}')
+                rex = z3.Loop(S.ws_re() if kind == 'ws' else z3.Re(z3.StringVal(' ')), 0, item[1])
+                self.eng.add_axiom(z3.InRe(v, rex))
+                parts.append((S.SymStr(v, item[1]), kind))
+                total += item[1]
+            elif kind == 'ci':
+                for i, ch in enumerate(item[1]):
+                    v = z3.String(f'{name}.{j}.{i}')
+                    self.eng.add_axiom(z3.InRe(v, S.char_ci(ch)))
+                    q = S.SymStr(v, 1)
+                    q.base = ch.lower() if (ch.isascii() and ch.isalpha()) else ch
+                    parts.append((q, 'ci'))
+                    total += 1
+            elif kind == 'lc':
+                alphabet = z3.Union(z3.Range('a', 'z'), z3.Range('0', '9'), z3.Range('!', '/'), z3.Range(':', '@'), z3.Range('[', '`'), z3.Range('{', '~'))
+                v = z3.String(f'{name}.{j}')
+                self.eng.add_axiom(z3.InRe(v, z3.Loop(alphabet, 1, item[1])))
+                parts.append((S.SymStr(v, item[1]), 'lc'))
+                total += item[1]
+            elif kind == 'num':
+                v = z3.String(f'{name}.{j}')
+                self.eng.add_axiom(z3.InRe(v, S.number_re()))
+                self.eng.add_axiom(z3.Length(v) <= item[1])
+                parts.append((S.SymStr(v, item[1]), 'nospace'))
+                total += item[1]
+            else:
+                raise ValueError(kind)
+        whole = z3.String(name)
+        self.inputs[name] = whole
+        self.input_kinds[name] = 'str'
+        self.eng.add_axiom(whole == z3.Concat(*[q.t for (q, _) in parts]) if len(parts) > 1 else whole == parts[0][0].t)
+        return S.SymStr(whole, total, parts)
 
     def choice(self, name: str, n: int) -> int:
         """fork over 0..n-1 (a symbolic index concretised by the engine)"""
@@ -554,7 +608,7 @@ class SymCtx:
             if hit.get('when') is None:
                 return
             # exclude the known input class and look for a different violation of the same check
-            env = {k: (SymFloat(v) if self.input_kinds[k] == 'real' else SymInt(v) if self.input_kinds[k] == 'int' else SymBool(v))
+            env = {k: (SymFloat(v) if self.input_kinds[k] == 'real' else SymInt(v) if self.input_kinds[k] == 'int' else SymBool(v) if self.input_kinds[k] == 'bool' else v)
                    for k, v in self.inputs.items()}
             env['abs'] = abs
             try:
@@ -646,6 +700,12 @@ class ConcreteCtx:
 
     def choice(self, name, n):
         return int(self.inputs.get(name, 0)) if n > 1 else 0
+
+    def string(self, name, regex=None, max_len=12):
+        return str(self.inputs.get(name, ''))
+
+    def structured_string(self, name, spec):
+        return str(self.inputs.get(name, ''))
 
     def assume(self, cond):
         if not cond:
